@@ -198,6 +198,26 @@ int main(int argc, char** argv)
                 }
             }
         }
+        // ramp: EVERY count of positionals from 4 to 1100 (300 under ASan) - unlimited, exactly the accepted count, one above it.
+        // A complete range instead of a list of suspicious sizes: a threshold at 10, 100, 1000 or anywhere between is inside.
+        for (auto& D0 : decls)
+        {
+            if (D0.accepted != UNLIMITED)
+                continue;
+            std::vector<std::string> many = { "p0", "p1", "p2" };
+            for (size_t cnt = 4; cnt <= (a.asan() ? 300u : 1100u); cnt++)
+            {
+                many.push_back("p" + std::to_string(cnt - 1));
+                Decl exact = D0, tight = D0;
+                exact.accepted = static_cast<int>(cnt);
+                tight.accepted = static_cast<int>(cnt) - 1;
+                for (auto* d : { &D0, &exact, &tight })
+                {
+                    long idx = ctx.next;
+                    ctx.each([&] { return chk.describe(*d, many, {}); }, [&](mc::Report& rep) { chk.run_case(*d, many, {}, rep, idx); });
+                }
+            }
+        }
         // the parser object held a declaration with the opposite greedy mode and another accepted count before (move
         // assignment), or was used before its options were declared
         for (auto& D : decls)
